@@ -7,7 +7,7 @@ CFG = {
     "required_theorems": ["RpmVerif.C04.split_partition", "RpmVerif.C04.split_bounded", "RpmVerif.C04.split_witness", "RpmVerif.C04.split_declared", "RpmVerif.C04.parser_sees_only_slices", "RpmVerif.C04.parser_alloc_bound",
                           "RpmVerif.C04.parser_calls_prefix", "RpmVerif.C04.parser_calls_faithful", "RpmVerif.C04.parse_depends_on_slices", "RpmVerif.C04.parsePackage_total", "RpmVerif.C04.parseMetadata_total", "RpmVerif.C04.decode_total",
                           "RpmVerif.C04.accepted_count_bounded", "RpmVerif.C04.accepted_sizes_bounded", "RpmVerif.C04.getFileEntries_total",
-                          "RpmVerif.C04.readside_total", "RpmVerif.C04.readerNew_total", "RpmVerif.C04.iterate_total", "RpmVerif.C04.keyIds_total",
+                          "RpmVerif.C04.readside_total", "RpmVerif.C04.readerNew_total", "RpmVerif.C04.iterate_total", "RpmVerif.C04.keyIds_total", "RpmVerif.C04.oneIssuer_u32_overflow",
                           "RpmVerif.C04.iterator_no_runaway", "RpmVerif.C04.collectMem_total",
                           "RpmVerif.C04.reserve_arg_reading", "RpmVerif.C04.buf_grows_with_input", "RpmVerif.C04.size_rest_is_model", "RpmVerif.C04.reserve_le_remaining",
                           "RpmVerif.C04.decode_reserve_le", "RpmVerif.C04.reserved_le_input", "RpmVerif.C04.acct_of_accepted", "RpmVerif.C04.decode_kept_le",
@@ -44,7 +44,9 @@ CFG = {
                      "memory is MEASURED by a counting allocator in the harness and judged against the limits of Spec/Alloc.lean (a reading of 'in proportion': the property gives no number); "
                      "the theorems bound what the model's account of Header::parse requests (reserve_exact argument and buffer initialiser scraped from the source, sizes of String / IndexEntry of a 64-bit target assumed)",
                      "allocations of the pgp crate, the decompressors, the accessors and the Display / Debug impls are measured, not modelled"],
-    "assumptions": COMMON_ASSUME + ["panic-freedom of dependencies is outside the model (the harness reports any crash with its input)"],
+    "assumptions": COMMON_ASSUME + ["panic-freedom of dependencies is outside the model (the harness reports any crash with its input)",
+                                    "keyIds_total / readside_total: SigScheme.IssuerSmall — the OpenPGP layer never reports 2^32 or more issuers for one signature "
+                                    "(the count goes through usize -> u32 with an unwrap, package.rs:309, 352; oneIssuer_u32_overflow shows the panic branch of the model)"],
     "level_text": "Theorems for EVERY byte string: parsing a package or metadata never reaches a panic outcome (the model makes each partial Rust operation an "
                   "explicit panic and proves it unreachable, incl. Lead::parse's unwrap), decoding never panics for any type/offset/count, every accepted entry's "
                   "count is bounded by the store length and index + store fit inside the input, and no accessor (incl. the unreachable!() arms of the list "
